@@ -334,9 +334,9 @@ pub fn gen(seed: u64, run: u64, focus: &str, tier: Tier) -> Plan {
         },
         _ => {},
     }
-    if focus == "C11" {
+    if focus == "C11" || focus == "C01" {
         let mut mrng = Rng::stream(seed, run, "session-mgr");
-        if mrng.chance(1, 5) {
+        if mrng.chance(1, if focus == "C11" { 5 } else { 10 }) {
             plan.sessions.clear();
             plan.mgr = Some(crate::engines::mgrmt::gen_mgr(&mut mrng));
             return plan;
@@ -1432,7 +1432,7 @@ impl Engine for SessionEngine {
         let p: Plan = serde_json::from_value(plan.clone()).expect("session plan");
         let mut rep = RunReport::default();
         if let Some(m) = &p.mgr {
-            crate::engines::mgrmt::run_mgr(m, &mut rep);
+            crate::engines::mgrmt::run_mgr(m, &mut rep, focus);
             return rep;
         }
         let n_files: usize = p.sessions.iter().map(|s| s.files.len()).sum();
@@ -1607,7 +1607,7 @@ impl Engine for SessionEngine {
             "C16" => "an injected store failure fired while another store call was in flight",
             _ => "at least two files with more than one feed call overlapped in event-sequence time and at least one dedup hit lay on a downloaded file's path",
         };
-        let mgr = if focus == "C11" { " One C11 run in five instead drives one ShardFileManager from 2-4 concurrent callers (OS threads with their own runtimes under the cooperative one-thread-at-a-time scheduler, switching at the shard write-out points, between operations and whenever a caller finds a lock held): adds of xorb and file records, flushes (explicit and size-triggered) and queries; every record whose add returned Ok must be in a shard file of the directory after the final flush and be found by the manager (non-trivial there: a caller found a lock held and at least two shards were written)." } else { "" };
+        let mgr = if focus == "C11" || focus == "C01" { " One C11 run in five (C01: one in ten) instead drives one ShardFileManager from 2-4 concurrent callers (OS threads with their own runtimes under the cooperative one-thread-at-a-time scheduler, switching at the shard write-out points, between operations and whenever a caller finds a lock held): adds of xorb and file records, flushes (explicit and size-triggered) and queries; every record whose add returned Ok must be in a shard file of the directory after the final flush and be found by the manager (non-trivial there: a caller found a lock held and at least two shards were written)." } else { "" };
         format!("Each run: 1-4 upload sessions x 1-8 concurrently cleaned files against one simulated store (real LocalClient behind gates) with seeded contents from an atom pool (twins, extensions, recombinations, in-file repeats, fragmentation patterns, degenerate sizes), seeded feed partitions, seeded latency of every store call on the paused clock, per-process seeded size-limit configuration; one session in eight (C11: one in four) runs as another process sharing the shard-cache directory (own manager objects; its shard files appear in the shared directory afterwards) and before one session in twelve (C11: one in six) the shard cache directory is emptied (cache clear / expiry clean-up; data stored afterwards obliges later sessions again); all oracles of the session family are evaluated after the run.{mgr} Non-trivial: {nt}. Distinct: hash of (latency mode, per-session file/put/shard counts, order of store-call completions).")
     }
     fn real_vs_stub(&self) -> Value {
